@@ -64,6 +64,12 @@ def wr(ex, p, nlimbs, v):
 def is_app(t, f):
     return (not isinstance(t, int)) and z3.is_app(t) and t.decl().eq(f)
 
+def corder(a, A, b, B):
+    """deterministic argument order for commutative uninterpreted products: constants first, then by structural hash"""
+    ka = (0, a) if isinstance(a, int) else (1, A.hash())
+    kb = (0, b) if isinstance(b, int) else (1, B.hash())
+    return (A, B) if ka <= kb else (B, A)
+
 # ---- exact modular add/sub/neg on W-bit vectors with modulus m (python int)
 
 def add_mod(a, b, m, W):
@@ -101,7 +107,7 @@ def _mod_of(ex, p, n):
 
 # ---- 384-bit field
 
-def mul_mont_384_val(a, b):
+def mul_mont_384_val(a, b, ex=None):
     if isinstance(a, int) and isinstance(b, int):
         return a * b * pow(1 << 384, -1, P381) % P381
     # multiplication by the constants R^2 and 1 are the Montgomery conversions
@@ -118,9 +124,15 @@ def mul_mont_384_val(a, b):
     if isinstance(a, int) and a == RMONT384:
         return reduce_p(b)
     A, B = tobv(a, 384), tobv(b, 384)
-    # canonical argument order (the function is commutative)
-    if A.get_id() > B.get_id():
-        A, B = B, A
+    A, B = corder(a, A, b, B)
+    if ex is not None and (isinstance(a, int) or isinstance(b, int)):
+        # multiplication by a non-zero constant is injective (instance axioms over the values seen on this path)
+        c, v = (a, tobv(b, 384)) if isinstance(a, int) else (b, tobv(a, 384))
+        seen = ex.pstate.setdefault('mulc_seen', {}).setdefault(c, [])
+        if not any(v.eq(y) for y in seen):
+            for y in seen:
+                ex.add(z3.Implies(MULM(A, B) == MULM(tobv(c, 384), y), v == y))
+            seen.append(v)
     return MULM(A, B)
 
 def reduce_p(a):
@@ -160,7 +172,7 @@ def st_cneg_mod_384(L, ex, a, I):
     wr(ex, a[0], 6, n)
 
 def st_mul_mont_384(L, ex, a, I):
-    wr(ex, a[0], 6, mul_mont_384_val(rd(ex, a[1], 6), rd(ex, a[2], 6)))
+    wr(ex, a[0], 6, mul_mont_384_val(rd(ex, a[1], 6), rd(ex, a[2], 6), ex))
 
 def st_sqr_mont_384(L, ex, a, I):
     x = rd(ex, a[1], 6)
@@ -179,6 +191,24 @@ def sgn_pty(v):
         return simp(z3.UGT(c, z3.BitVecVal((P381 - 1) // 2, 384))), simp(z3.Extract(0, 0, c) == 1)
     # sign of a negated element flips (elements are non-zero here; y = 0 is not on either curve)
     return SGN(tobv(v, 384)), PTY(tobv(v, 384))
+
+REDC384 = z3.Function('fp_redc_768', BV(768), BV(384))
+
+def st_redc_mont_384(L, ex, a, I):
+    """redc_mont_384(ret, a[768 bits], p, n0): ret = a * R^-1 mod p"""
+    x = rd(ex, a[1], 12)
+    if isinstance(x, int):
+        wr(ex, a[0], 6, x * pow(1 << 384, -1, P381) % P381)
+        return
+    X = tobv(x, 768)
+    # hash-to-field: distinct 64-byte digests give distinct field elements (a collision has probability
+    # about 2^-128 per pair; stated assumption), as instance axioms over the values seen on this path
+    seen = ex.pstate.setdefault('redc_seen', [])
+    if not any(X.eq(y) for y in seen):
+        for y in seen:
+            ex.add(z3.Implies(REDC384(X) == REDC384(y), X == y))
+        seen.append(X)
+    wr(ex, a[0], 6, REDC384(X))
 
 def st_sgn0_pty_mont_384(L, ex, a, I):
     v = rd(ex, a[0], 6)
@@ -229,7 +259,7 @@ def fp2_mul_val(x, y):
         ri = pow(1 << 384, -1, P381)
         return ((a0 * b0 - a1 * b1) * ri % P381, (a0 * b1 + a1 * b0) * ri % P381)
     A, B = _cat2(a0, a1), _cat2(b0, b1)
-    if A.get_id() > B.get_id():
+    if A.hash() > B.hash():
         A, B = B, A
     r = MULM2(A, B)
     return simp(z3.Extract(383, 0, r)), simp(z3.Extract(767, 384, r))
@@ -283,8 +313,7 @@ def mul_mont_256_val(a, b):
     if isinstance(a, int) and a == 1:
         return from_mont_r(b)
     A, B = tobv(a, 256), tobv(b, 256)
-    if A.get_id() > B.get_id():
-        A, B = B, A
+    A, B = corder(a, A, b, B)
     return MULMR(A, B)
 
 def to_mont_r(a):
@@ -531,6 +560,7 @@ def install(L):
     for n in ('@sgn0x_pty_mont_384', '@sgn0_pty_mont_384'): S[n] = st_sgn0_pty_mont_384
     for n in ('@sgn0x_pty_mont_384x', '@sgn0_pty_mont_384x'): S[n] = st_sgn0_pty_mont_384x
     S['@sqrt_fp'] = st_sqrt_fp
+    for n in ('@redcx_mont_384', '@redc_mont_384'): S[n] = st_redc_mont_384
     S['@sqrt_fp2'] = st_sqrt_fp2
     S['@add_mod_384x'] = st_add_mod_384x
     S['@sub_mod_384x'] = st_sub_mod_384x
